@@ -301,7 +301,8 @@ fn struct_init_block<'a>(input: &'a Struct, ctx: &'a ImplContext) -> TokenStream
             } else {
                 match x.attrs.child(&ctx.struct_attr.ty) {
                     Some(child_attr) => vec![make_tuple(child_attr.get_child_path_str(None).to_string(), true, true, FieldData::Field(x)).0],
-                    None => vec![make_tuple(x.member_str.clone(), false, true, FieldData::Field(x)).0],
+                    // a plain member belongs to no nested struct, whatever its name: it has no group path
+                    None => vec![make_tuple(String::new(), false, true, FieldData::Field(x)).0],
                 }
             };
             fields.into_iter()
